@@ -221,6 +221,36 @@ fn run(op: &str, a: &[&str]) -> String {
             vh::sqr_kernel(&mut b, &x);
             format!("ok {}", words_hex(false, &b))
         }
+        // kmem la lb -> ok <words reserved by mul::memory_requirement_exact> <least number of scratch words with which
+        //                   mul::add_signed_mul runs through> (the allocator panics when a kernel asks for more)
+        "kmem" => {
+            let (la, lb) = (usz(a[0]), usz(a[1]));
+            let x = vec![Word::MAX; la];
+            let y = vec![Word::MAX - 1; lb];
+            let reserved = vh::mul_scratch_words(la + lb, la, lb);
+            let runs = |k: usize| -> bool {
+                let mut c = vec![0 as Word; la + lb];
+                std::panic::catch_unwind(std::panic::AssertUnwindSafe(|| {
+                    let _ = vh::mul_kernel_scratch(&mut c, true, &x, &y, k);
+                }))
+                .is_ok()
+            };
+            let mut hi = reserved;
+            while !runs(hi) {
+                hi = 2 * hi + 16;
+                assert!(hi < (1 << 28), "kernel does not run with any amount of scratch memory");
+            }
+            let mut lo = 0usize; // least k in lo..=hi that runs
+            while lo < hi {
+                let mid = (lo + hi) / 2;
+                if runs(mid) {
+                    hi = mid;
+                } else {
+                    lo = mid + 1;
+                }
+            }
+            format!("ok {:x} {:x}", reserved, lo)
+        }
         "params" => {
             let (t1, t2, m1, m2) = vh::MUL_PARAMS;
             format!("ok {:x} {:x} {:x} {:x} {:x}", t1, t2, m1, m2, vh::WORD_BITS)
